@@ -7,6 +7,8 @@ def apply_op(op, label, vals):
     The same function is used by the harness to compute the failure-free denotation."""
     if op == "inc":          # ints
         return sum(vals) * 2 + len(label)
+    if op == "succ":         # loop counter
+        return vals[0] + 1
     if op == "cat":          # strings (file contents)
         return "+".join(vals) + "|" + label
     if op == "split":        # one string -> list of strings
@@ -41,6 +43,16 @@ def denote(shape):
         for i in range(shape["post"]):
             v = apply_op("cat" if ftype == "file" else "inc", f"c{i}", [v])
         return v
+    if kind == "loop":
+        for i in range(shape["pre"]):
+            v = apply_op("cat" if ftype == "file" else "inc", f"a{i}", [v])
+        if shape["iters"] == 0:
+            v = None   # the loop-output step emits Token(None) when the body never ran
+        for _ in range(shape["iters"]):
+            v = apply_op("cat" if ftype == "file" else "inc", "body", [v])
+        for i in range(shape["post"]):
+            v = apply_op("cat" if ftype == "file" else "inc", f"c{i}", [v])
+        return v
     if kind == "diamond":
         v = apply_op("cat" if ftype == "file" else "inc", "root", [v])
         bs = [apply_op("cat" if ftype == "file" else "inc", f"br{i}", [v]) for i in range(shape["branches"])]
@@ -61,6 +73,10 @@ def step_names(shape):
         r.append(("/g", ["0"]))
         r += [(f"/c{i}", ["0"]) for i in range(shape["post"])]
         return r
+    if kind == "loop":
+        its = [f"0.{i}" for i in range(shape["iters"])]
+        return ([(f"/a{i}", ["0"]) for i in range(shape["pre"])] + [("/body", its), ("/cnt", its)]
+                + [(f"/c{i}", ["0"]) for i in range(shape["post"])])
     if kind == "diamond":
         return [("/root", ["0"])] + [(f"/br{i}", ["0"]) for i in range(shape["branches"])] + [("/join", ["0"])]
     raise ValueError(kind)
@@ -104,6 +120,21 @@ def dag_of(shape):
         for i in range(shape["post"]):
             d.append((f"/c{i}/0", [len(d) - 1], one(f"c{i}")))
         return d
+    if kind == "loop":
+        for i in range(shape["pre"]):
+            d.append((f"/a{i}/0", [len(d) - 1], one(f"a{i}")))
+        x = len(d) - 1
+        d.append((None, [], "OConstN 0"))          # the counter's initial value: a workflow input
+        cnt = len(d) - 1
+        for it in range(shape["iters"]):
+            d.append((f"/body/0.{it}", [x], one("body")))
+            x = len(d) - 1
+            d.append((f"/cnt/0.{it}", [cnt], "OSucc"))
+            cnt = len(d) - 1
+        for i in range(shape["post"]):
+            d.append((f"/c{i}/0", [x], one(f"c{i}")))
+            x = len(d) - 1
+        return d, x
     if kind == "diamond":
         d.append(("/root/0", [0], one("root")))
         brs = []
@@ -113,3 +144,11 @@ def dag_of(shape):
         d.append(("/join/0", brs, one("join")))
         return d
     raise ValueError(kind)
+
+
+def dag_out(shape):
+    """(dag, index of the output job, indexes of the jobs whose output is a file when the data type is file)"""
+    r = dag_of(shape)
+    d, out = r if isinstance(r, tuple) else (r, len(r) - 1)
+    vol = [i for i, (name, _, op) in enumerate(d) if name and not op.startswith(("OSucc", "OConst"))]
+    return d, out, vol
